@@ -205,6 +205,47 @@ fn run(op: &Value) -> Value {
                 json!({"blocking": show(b), "async": show(a)})
             }
         }
+        "server_body" => {
+            use conjure_error::Error;
+            use conjure_http::server::{AsyncDeserializeRequest, ConjureRuntime, DeserializeRequest, JsonEncoding, SmileEncoding, StdRequestDeserializer};
+            let chunks: Vec<Option<Vec<u8>>> = op["chunks"].as_array().unwrap().iter().map(|c| c.as_str().map(hex)).collect();
+            let items = |chunks: &Vec<Option<Vec<u8>>>| -> Vec<Result<bytes::Bytes, Error>> {
+                chunks.iter().map(|c| match c {
+                    Some(b) => Ok(bytes::Bytes::from(b.clone())),
+                    None => Err(Error::internal_safe("stream")),
+                }).collect()
+            };
+            let mut b = ConjureRuntime::builder();
+            for o in op["order"].as_array().unwrap() {
+                b = match o.as_str().unwrap() { "json" => b.encoding(JsonEncoding), _ => b.encoding(SmileEncoding) };
+            }
+            let rt = b.build();
+            let mut headers = http::HeaderMap::new();
+            if let Some(ct) = op["content_type"].as_str() {
+                headers.insert(http::header::CONTENT_TYPE, http::HeaderValue::from_str(ct).unwrap());
+            }
+            let show = |r: Result<i32, Error>| match r {
+                Ok(v) => json!({"ok": v.to_string()}),
+                Err(e) => json!({"err": e.cause().to_string(), "code": match e.kind() { conjure_error::ErrorKind::Service(s) => format!("{:?}", s.error_code()), _ => "other".to_string() },
+                                 "safe_params": e.safe_params().iter().map(|(k, v)| format!("{}={:?}", k, v)).collect::<Vec<_>>()}),
+            };
+            macro_rules! with_n {
+                ($n:expr, [$($k:literal),*]) => {
+                    match $n {
+                        $($k => (
+                            <StdRequestDeserializer<$k> as DeserializeRequest<i32, _>>::deserialize(&rt, &headers, items(&chunks).into_iter()),
+                            futures::executor::block_on(<StdRequestDeserializer<$k> as AsyncDeserializeRequest<i32, _>>::deserialize(&rt, &headers, futures::stream::iter(items(&chunks)))),
+                        ),)*
+                        _ => (
+                            <StdRequestDeserializer as DeserializeRequest<i32, _>>::deserialize(&rt, &headers, items(&chunks).into_iter()),
+                            futures::executor::block_on(<StdRequestDeserializer as AsyncDeserializeRequest<i32, _>>::deserialize(&rt, &headers, futures::stream::iter(items(&chunks)))),
+                        ),
+                    }
+                };
+            }
+            let (bl, asy) = with_n!(op["N"].as_u64().unwrap_or(99), [0, 1, 2, 3, 4, 5, 6, 8, 16]);
+            json!({"blocking": show(bl), "async": show(asy)})
+        }
         _ => json!({"error": format!("unknown op {}", name)}),
     }
 }
